@@ -42,6 +42,7 @@ enum Sel {
     Fn(String),
     ImplFn { ty: String, tr: Option<String>, name: String },
     Impl { ty: String, tr: Option<String> },
+    ImplConst { ty: String, name: String },
     Item { kind: String, name: String },
 }
 
@@ -53,6 +54,7 @@ fn parse_selector(s: &str) -> Sel {
         ["impl", tr, "for", ty, "fn", n] => {
             Sel::ImplFn { ty: ty.to_string(), tr: Some(tr.to_string()), name: n.to_string() }
         }
+        ["impl", ty, "const", n] => Sel::ImplConst { ty: ty.to_string(), name: n.to_string() },
         ["impl", ty] => Sel::Impl { ty: ty.to_string(), tr: None },
         ["impl", tr, "for", ty] => Sel::Impl { ty: ty.to_string(), tr: Some(tr.to_string()) },
         [k, n] if ["struct", "enum", "const", "static", "trait", "type"].contains(k) => {
@@ -131,6 +133,18 @@ fn find_in_items(items: &[syn::Item], sel: &Sel, out: &mut Vec<Found>) {
             }
             syn::Item::Impl(im) => {
                 if is_cfg_test(&im.attrs) {
+                    continue;
+                }
+                if let Sel::ImplConst { ty, name } = sel {
+                    if im.trait_.is_none() && ty_matches(&im.self_ty, ty) {
+                        for ii in &im.items {
+                            if let syn::ImplItem::Const(c) = ii {
+                                if c.ident == name {
+                                    out.push(Found { range: range_of(c), is_fn: false });
+                                }
+                            }
+                        }
+                    }
                     continue;
                 }
                 let (ty, tr) = match sel {
@@ -400,10 +414,11 @@ fn main() {
             let mut edits = Vec::new();
             for fld in st.fields.iter() {
                 if matches!(fld.vis, syn::Visibility::Inherited) {
-                    if let Some(id) = &fld.ident {
-                        let at = id.span().byte_range().start;
-                        edits.push(Edit { range: at..at, rep: "pub ".into(), rule: "R10pub".into() });
-                    }
+                    let at = match &fld.ident {
+                        Some(id) => id.span().byte_range().start,
+                        None => range_of(&fld.ty).start,
+                    };
+                    edits.push(Edit { range: at..at, rep: "pub ".into(), rule: "R10pub".into() });
                 }
             }
             let n = edits.len() as u64;
